@@ -1469,7 +1469,7 @@ func (sc *serverConn) closeBodyStream(strm *Stream) {
 // has been sent. A negative window simply blocks until a WINDOW_UPDATE arrives.
 func (sc *serverConn) sendData(strm *Stream) bool {
 	for {
-		if len(strm.pendingData) == 0 {
+		if len(strm.pendingData) == 0 && !strm.pendingEnd {
 			if strm.bodyStream == nil {
 				break
 			}
@@ -1484,26 +1484,34 @@ func (sc *serverConn) sendData(strm *Stream) bool {
 				return true
 			}
 
-			if len(strm.pendingData) == 0 {
+			if len(strm.pendingData) == 0 && !strm.pendingEnd {
 				break
 			}
 		}
 
-		avail := strm.window
-		if sc.clientWindow < avail {
-			avail = sc.clientWindow
-		}
+		// From here on there is either data to send, or the body has ended with
+		// nothing left over (a reader that reports EOF on its own, after the
+		// last octet), and then an empty DATA frame has to carry END_STREAM.
+		// Empty frames are not subject to flow control.
+		step := int64(0)
 
-		if avail <= 0 {
-			return false
-		}
+		if len(strm.pendingData) > 0 {
+			avail := strm.window
+			if sc.clientWindow < avail {
+				avail = sc.clientWindow
+			}
 
-		step := int64(maxDataFrameSize)
-		if avail < step {
-			step = avail
-		}
-		if int64(len(strm.pendingData)) < step {
-			step = int64(len(strm.pendingData))
+			if avail <= 0 {
+				return false
+			}
+
+			step = int64(maxDataFrameSize)
+			if avail < step {
+				step = avail
+			}
+			if int64(len(strm.pendingData)) < step {
+				step = int64(len(strm.pendingData))
+			}
 		}
 
 		chunk := strm.pendingData[:step]
@@ -1524,6 +1532,13 @@ func (sc *serverConn) sendData(strm *Stream) bool {
 
 		strm.window -= step
 		sc.clientWindow -= step
+
+		// Nothing may follow END_STREAM, whatever the body reader still has.
+		if end {
+			strm.pendingEnd = false
+
+			break
+		}
 	}
 
 	sc.closeBodyStream(strm)
